@@ -141,6 +141,14 @@ uint8_t thread_create(struct thread* t, void (*p)(void*), void* a) { return 1; }
 void thread_join(struct thread* t) {}
 
 static void sig_stop_source(const struct video_sink_s* s) { ++stop_source_calls; }
+/* C04/C02: storage reads the packet in place, so the sink's reader must still have it mapped while
+ * the device works on it (released first, the region is free for the writer: frames torn or lost
+ * under back-pressure) */
+static void
+on_append(int sto, const struct VideoFrame* frames, size_t nbytes)
+{
+    VASSERT(snk.reader.state == ChannelState_Mapped, "C04: packet handed to storage after its region was released to the writer (zero-copy window no longer mapped)");
+}
 
 int
 main(void)
@@ -162,6 +170,7 @@ main(void)
     N = ND(uint8_t);
     VASSUME(N >= 1 && N <= NMAX);
     STO[0].expect_cam = 0; STO[0].expect_acq = 0;
+    mock_append_hook = on_append;
 #if SCN == 1
     STO[0].fail_append_at = ND(uint8_t);
     VASSUME(STO[0].fail_append_at <= NMAX);
